@@ -106,7 +106,7 @@ static RunResult execute_once(const Json &plan, std::vector<std::string> *log = 
                 rr.fail("INFRA.profile", "unknown profile " + plan.gets("prof"));
                 return rr;
         }
-        g_arena.run_begin((size_t) ((uint64_t) plan.at("mem").geti("skip")));
+        g_arena.run_begin((size_t) ((uint64_t) plan.at("mem").geti("skip")), (size_t) ((uint64_t) plan.at("mem").geti("sub")));
         sim_run_begin();
         // swarm CPU: any profile's traffic can be routed through the implementations a lesser CPU would select
         // (cold start, real resolvers under simulated CPUID/XGETBV, a short trapped prefix of each selected kernel)
